@@ -8,7 +8,8 @@ HedString / HedTag / HedGroup trees are built from symbolic tag letters without 
 
 `parents` (concrete, case-folded child letter -> case-folded parent letter) gives the stub a hierarchy:
 TermStub({"b": "a"}) makes node b a child of node a, so tag `b` has tag_terms ("a", "b") and long form a/b.
-Any other tag text (longer than one character, or empty) is unknown to the stub (no entry), as in NoSchema.
+A three-character text `x/y` is node x with the extension (or value) y: entry of x, remainder "/y".
+Any other tag text (longer, or empty) is unknown to the stub (no entry), as in NoSchema.
 """
 
 
@@ -52,6 +53,10 @@ class TermStub:
 
     def find_tag_entry(self, tag, schema_namespace=""):
         text = tag.org_tag
+        if len(text) == 3 and text[1] == "/":
+            # node + one-character extension/value ("a/x"): entry of the node, remainder "/x" (what
+            # HedSchema.find_tag_entry returns for an extension) -- only the C15 harness term_modes_ext builds these
+            return TermEntry(text[0], self._path(text[0])), text[1:], []
         if len(text) != 1:
             return None, None, []
         return TermEntry(text, self._path(text)), None, []
